@@ -16,7 +16,7 @@ CHECKS = {
          "kanziref/v2 (snapshot of the pinned commit, under /verif/ref) and the current tree are linked into the same binary. 89 corpus streams written by the reference encoder (every transform, every entropy codec, checksum 0/32/64, hint, small blocks, headerless, > 4 MiB BWT, long runs / long distances) must decode with the current Reader (jobs 1 and 3) to their recorded SHA-256; 600 (quick) / 20 000 (thorough) generated (config, data) pairs on which the reference round-trips must satisfy current.Read(reference.Write(x)) == x; XXHash32/64 are compared on 3 000 random buffers.",
          "Only bitstream version 6 as written by the snapshot; pairs on which the reference itself fails are skipped (counted in the evidence).", "DESIGN.md §3 C10"),
  "C18": ("exploration", "race detector (go build -race) over concurrent multi-pipeline stress with hook-perturbed scheduling and varied GOMAXPROCS; race log parsed, de-duplicated and attributed; outputs compared with isolated runs",
-         "The harness and /repo/v2 are built with -race -tags verif. 36 pipelines covering all 19 transforms and 9 entropy codecs, jobs 1..16, a > 4 MiB BWT block decoded with several jobs (parallel inverse BWT), listeners with verbosity 5, several UTF/TEXT pipelines side by side, run 16 at a time for 2 (quick) / 8 (thorough) rounds with GOMAXPROCS alternating between all CPUs, 4 and 2, yields/sleeps injected at the hand-off hooks; then 38 cold-start processes (one per transform, entropy codec and level chain) in which the FIRST use of the codec is made by 4 goroutines at once (lazy initialisers, pools), with expected streams computed by the parent. Every stream and decoded output is compared with the isolated run; GORACE halt_on_error=0 log is parsed and any report with a frame in kanzi-go/v2 is a violation.",
+         "The harness and /repo/v2 are built with -race -tags verif. 50 pipelines covering all 19 transforms and 9 entropy codecs, jobs 1..16, a > 4 MiB BWT block decoded with several jobs (parallel inverse BWT), listeners with verbosity 5, several UTF/TEXT pipelines side by side, run 16 at a time for 2 (quick) / 8 (thorough) rounds with GOMAXPROCS alternating between all CPUs, 4 and 2, yields/sleeps injected at the hand-off hooks; then 38 cold-start processes (one per transform, entropy codec and level chain) in which the FIRST use of the codec is made by 4 goroutines at once (lazy initialisers, pools), with expected streams computed by the parent. Decoders also run with block ranges and on damaged streams (error / cancel paths). A structural monitor on the write-range hook of the parallel inverse BWT checks that the workers of one inverse write pairwise disjoint output ranges (a same-value double write is a race the detector almost never reports). Every stream and decoded output is compared with the isolated run; GORACE halt_on_error=0 log is parsed and any report with a frame in kanzi-go/v2 is a violation.",
          "The race detector sees executed interleavings only.", "DESIGN.md §3 C18"),
  "C04": ("exploration", "runtime monitor: byte-equality oracle at the sink across job counts, Write partitions and hook-driven schedules (random yields/sleeps and controlled PCT priority schedules)",
          "For 11 configurations (incl. the CLI level chains that consult per-block data-type hints, BWT, ROLZX, TPAQ, CM) and multi-batch inputs whose blocks have heterogeneous content, the sink bytes of every variant - jobs 2..64, four Write partitions, 4 hint modes, schedules none/free/PCT - are compared with the jobs=1 single-Write run. About 660 (quick) / 8 000 (thorough) variant runs; evidence reports the number of distinct hand-off orders observed. Exploration: schedules are sampled.",
